@@ -119,15 +119,57 @@ def pseudo_elig_job():
     return res
 
 
+_ELIGIBLE = None
+
+
+def eligible_set():
+    """E = { expand16(h) : h a legal non-hint RV32C halfword }, as hashable keys."""
+    global _ELIGIBLE
+    if _ELIGIBLE is None:
+        E = set()
+        for h in range(0x10000):
+            cls, mn, f = rvref.dec16(h)
+            if cls == rvref.LEGAL:
+                b = rvref.expand16(mn, f)
+                E.add((b[0], tuple(sorted(b[1].items()))))
+        _ELIGIBLE = E
+    return _ELIGIBLE
+
+
 def judge(prog, res):
+    from vlib import refwalk
     a = _prog.get_asm()
-    src = prog.text()
+    # half of the programs spell their integers in hex / binary (a number like 0xa then contains letters)
+    h = env.chash(prog.text())
+    src = prog.text(ir.Style(1 + h[1], kinds={'intbase'})) if h[0] % 2 else prog.text()
     res.evaluations += 1
     u = progcheck.assemble(a, src, False)
     c = progcheck.assemble(a, src, True)
     if u[0] != 'ok' or c[0] != 'ok':
         res.count('refused')
         return
+    # eligibility in context: inside a whole program (labels, constants, aliases, label-dependent neighbours around it)
+    # every real instruction whose operands do not depend on labels and which equals the expansion of a legal RVC
+    # instruction must still come out in 16 bits
+    w = refwalk.walk(prog.items, c[1], c[2], c[3])
+    if not w.discs:
+        E = eligible_set()
+        for i, it in enumerate(prog.items):
+            if it.kind != 'insn' or it.mn.startswith('c.'):
+                continue
+            if any(getattr(o, 'label_dep', False) for o in it.ops.values()):
+                continue
+            off, sz, insns = w.seg[i]
+            try:
+                base, _ = refwalk.expected_base(it, ir.Ctx(w.consts, w.labels, off))
+            except KeyError:
+                continue
+            if (base[0], tuple(sorted(base[1].items()))) in E:
+                res.count('eligible_in_context')
+                if sz != 2:
+                    one = it.render(ir.Style(0))
+                    raise env.CaseFailure('elig:context:%s' % it.mn, '%r has literal operands and equals the expansion of a legal RVC instruction but is emitted in %d bytes '
+                                          'inside this program\n%s' % (one, sz, src[:700]), progcheck.case_of(prog, True))
     if len(c[1]) > len(u[1]):
         raise env.CaseFailure('grows:length', 'binary is %d bytes with -c and %d without' % (len(c[1]), len(u[1])), progcheck.case_of(prog, True))
     for L, v in u[2].items():
@@ -158,7 +200,8 @@ def run(tier):
                 'operands in three spellings (reg, imm / imm(reg); signed / unsigned upper immediate; registers as xN / ABI alias / number mixed '
                 'within one instruction), assembled with -c, must be '
                 '16 bits and effect-equal - every element is non-trivial, distinct by construction; (b) Hypothesis IR programs: '
-                'len and every label with -c <= without; non-trivial = -c moves some label down; distinct by source')
+                'len and every label with -c <= without, and every literal-operand instruction of the program whose meaning is in that set is 16 bits '
+                '(eligibility in context); non-trivial = -c moves some label down; distinct by source')
     return chk.finish()
 
 
